@@ -101,6 +101,32 @@ func (w *World) RunTasks() string {
 	return w.Aborted
 }
 
+// RunOne runs fn as the only initial task of a fresh round: goroutines the program starts while it runs become
+// further tasks under the seeded schedule. It may be called any number of times per world (the task table is
+// emptied first; step counters and the switch hash keep running). A panic of fn is re-raised in the caller.
+func (w *World) RunOne(fn func()) string {
+	w.clearTasks()
+	id := w.Go(fn)
+	ab := w.RunTasks()
+	t := w.sched.tasks[id]
+	w.clearTasks()
+	if t != nil && t.Panic != nil {
+		panic(t.Panic)
+	}
+	return ab
+}
+
+//go:norace
+func (w *World) clearTasks() {
+	s := &w.sched
+	for i := 0; i < s.nt; i++ {
+		s.tasks[i] = nil
+	}
+	s.nt = 0
+	s.bmask = 0
+	s.streak = 0
+}
+
 //go:norace
 func (w *World) setActive(b bool) {
 	w.sched.active = b
